@@ -18,7 +18,9 @@ RULE = ("the C03 histories with read-only public calls interleaved (dfs both dir
         "accessors, a visitor, pattern matching) between constructions, duplicates, replaces (succeeding and raising), "
         "detach, detach_self and drops. After EVERY operation: every dataclass field (children by object identity), id, "
         "content_id and hash() of every node that existed before the operation and is still held is re-read and must "
-        "equal the snapshot taken before it; hash(node) == hash(node.id); the complete content of every new node "
+        "equal the snapshot taken before it; hash(node) == hash(node.id); its registry membership (get_any(id) is node) must be "
+        "what it was unless the operation is detach / detach_self / a replace() that returned (as_dict / as_obj included: "
+        "deserialization may not change the membership of an existing node); the complete content of every new node "
         "equals the model's immutable cell; at the end setattr and delattr on every dataclass field of every held "
         "root must raise. non-trivial = at least 3 operations took effect on a state holding at least one node; "
         "distinct = distinct input terms")
